@@ -7,6 +7,7 @@ import (
 	"go/constant"
 	"go/token"
 	"go/types"
+	"regexp"
 	"sort"
 	"strconv"
 	"strings"
@@ -111,6 +112,12 @@ func (c *Ctx) path(v ssa.Value, env Env, d int) string {
 	}
 	switch x := v.(type) {
 	case *ssa.Parameter:
+		if s, ok := c.baseEnv[x]; ok {
+			return s // (the body of a thin wrapper is read in the wrapper's frame)
+		}
+		if s, ok := c.paramRefName(x); ok {
+			return s
+		}
 		return fmt.Sprintf("$%d", paramIndex(x))
 	case *ssa.FreeVar:
 		for i, fv := range x.Parent().FreeVars {
@@ -138,6 +145,9 @@ func (c *Ctx) path(v ssa.Value, env Env, d int) string {
 		}
 		return x.Value.ExactString()
 	case *ssa.Global:
+		if a := c.globalAlias(x); a != nil {
+			return "global:" + short(a.String())
+		}
 		return "global:" + short(x.String())
 	case *ssa.Function:
 		return "func:" + short(x.String())
@@ -183,16 +193,27 @@ func (c *Ctx) path(v ssa.Value, env Env, d int) string {
 		}
 		return x.Op.String() + c.path(x.X, env, d+1)
 	case *ssa.FieldAddr:
+		// a field of the result struct of an unexported helper (`r, err := parseVerified(req); use r.op`): the value the
+		// helper stored into that field of the struct it returns
+		if p, ok := c.resultField(x.X, x.Field, env, d); ok {
+			return p
+		}
 		// a struct value kept in a local cell that is written once, as a whole (v := f(); use v.field)
 		if al, ok := x.X.(*ssa.Alloc); ok && d < 40 {
 			if _, renamed := env[al]; !renamed {
 				if st := wholeStore(al); st != nil && instrBefore(st, x) {
+					if p, ok := c.resultField(st.Val, x.Field, env, d+1); ok {
+						return p
+					}
 					return c.path(st.Val, env, d+1) + "." + fieldName(x.X.Type(), x.Field)
 				}
 			}
 		}
 		return c.path(x.X, env, d) + "." + fieldName(x.X.Type(), x.Field)
 	case *ssa.Field:
+		if p, ok := c.resultField(x.X, x.Field, env, d); ok {
+			return p
+		}
 		return c.path(x.X, env, d) + "." + fieldName(x.X.Type(), x.Field)
 	case *ssa.IndexAddr:
 		return c.path(x.X, env, d) + "[" + c.path(x.Index, env, d+1) + "]"
@@ -228,6 +249,13 @@ func (c *Ctx) path(v ssa.Value, env Env, d int) string {
 				return "ι"
 			}
 		}
+		if isCmp(x.Op) {
+			// the number of parts is the number of separators plus one: strings.Count(s, sep) OP k reads as
+			// len(strings.Split(s, sep)) OP k+1
+			if l, r, ok := countAsParts(c.path(x.X, env, d+1), c.path(x.Y, env, d+1)); ok {
+				return "(" + l + " " + x.Op.String() + " " + r + ")"
+			}
+		}
 		return "(" + c.path(x.X, env, d+1) + " " + x.Op.String() + " " + c.path(x.Y, env, d+1) + ")"
 	case *ssa.Extract:
 		// v, err := asArrayOrError(x): a module helper that hands its argument back (type-asserted) on success
@@ -240,7 +268,7 @@ func (c *Ctx) path(v ssa.Value, env Env, d int) string {
 				}
 			}
 		}
-		if c.inlineHelpers {
+		if c.inlineHelpers || c.inlineFns != nil {
 			if cl, ok := x.Tuple.(*ssa.Call); ok {
 				if p, ok2 := c.inlinedResult(cl, x.Index, env, d); ok2 {
 					return p
@@ -1442,6 +1470,9 @@ func (c *Ctx) inlinedResult(cl *ssa.Call, idx int, env Env, d int) (string, bool
 	if g == nil || !inModule(g) || g.Blocks == nil || d > 8 || g.Object() == nil || g.Object().Exported() {
 		return "", false
 	}
+	if !c.inlineHelpers && !c.inlineFns[g] {
+		return "", false
+	}
 	if _, leaf := termLeaves[g.String()]; leaf {
 		return "", false
 	}
@@ -1515,7 +1546,7 @@ func (c *Ctx) concatForm(v ssa.Value, env Env) string {
 		case *ssa.Call:
 			// an unexported helper that composes the string: under the arguments of this call, the value of the one
 			// exit that stays reachable
-			if g := x.Call.StaticCallee(); g != nil && inModule(g) && g.Blocks != nil && g.Object() != nil && !g.Object().Exported() && isStringType(x.Type()) && d < 6 {
+			if g := x.Call.StaticCallee(); g != nil && inModule(g) && g.Blocks != nil && g.Object() != nil && !g.Object().Exported() && (isStringType(x.Type()) || isEmptyInterface(x.Type())) && d < 6 {
 				genv := c.concatEnv(&x.Call, g, env)
 				live := reach(g.Blocks[0], c.pruned(g, genv))
 				var rets []*ssa.Return
@@ -1531,6 +1562,20 @@ func (c *Ctx) concatForm(v ssa.Value, env Env) string {
 						}
 					}
 					return
+				}
+			}
+			if g := x.Call.StaticCallee(); g != nil && g.String() == "strings.Join" && len(x.Call.Args) == 2 {
+				// strings.Join over a slice whose elements are each written once, with a constant separator
+				if k, ok := x.Call.Args[1].(*ssa.Const); ok && k.Value != nil && k.Value.Kind() == constant.String {
+					if els, ok2 := c.varargValues(x.Call.Args[0]); ok2 && len(els) > 0 {
+						for i, e := range els {
+							if i > 0 && constant.StringVal(k.Value) != "" {
+								add(strconv.Quote(constant.StringVal(k.Value)))
+							}
+							flat(e, d+1)
+						}
+						return
+					}
 				}
 			}
 			if g := x.Call.StaticCallee(); g != nil && g.String() == "fmt.Sprintf" && len(x.Call.Args) == 2 {
@@ -1653,7 +1698,18 @@ func (c *Ctx) varargValues(v ssa.Value) ([]ssa.Value, bool) {
 		return nil, false
 	}
 	out := make([]ssa.Value, arr.Len())
-	for _, r := range *al.Referrers() {
+	// element cells: of the backing array (a literal) or of the slice itself (make + indexed assignments)
+	refs := append([]ssa.Instruction{}, *al.Referrers()...)
+	wholeHigh := sl.High == nil
+	if k, isK := sl.High.(*ssa.Const); isK && k.Value != nil {
+		if n, exact := constant.Int64Val(k.Value); exact && n == arr.Len() {
+			wholeHigh = true
+		}
+	}
+	if sl.Low == nil && wholeHigh && sl.Referrers() != nil {
+		refs = append(refs, *sl.Referrers()...)
+	}
+	for _, r := range refs {
 		ia, isIA := r.(*ssa.IndexAddr)
 		if !isIA {
 			continue
@@ -1708,4 +1764,208 @@ func returnedValue(r *ssa.Return, idx int) ssa.Value {
 		return last
 	}
 	return v
+}
+
+// resultField: base is the result (pointer or value) of a call of an unexported module helper with one accepting exit
+// that returns a struct it builds itself; field names a field that is written exactly once there. The field of the
+// result then is that value, in the caller's frame — a result struct is only a way of returning several values.
+func (c *Ctx) resultField(base ssa.Value, field int, env Env, d int) (string, bool) {
+	if d > 40 {
+		return "", false
+	}
+	var cl *ssa.Call
+	idx := 0
+	switch b := base.(type) {
+	case *ssa.Extract:
+		cl, _ = b.Tuple.(*ssa.Call)
+		idx = b.Index
+	case *ssa.Call:
+		cl = b
+	}
+	if cl == nil {
+		return "", false
+	}
+	g := cl.Call.StaticCallee()
+	if g == nil || !inModule(g) || g.Blocks == nil || g.Object() == nil || g.Object().Exported() {
+		return "", false
+	}
+	srs := successReturns(g)
+	if len(srs) != 1 || idx >= len(srs[0].Results) {
+		return "", false
+	}
+	var al *ssa.Alloc
+	switch rv := returnedValue(srs[0], idx).(type) {
+	case *ssa.Alloc:
+		al = rv
+	case *ssa.UnOp:
+		if rv.Op == token.MUL {
+			al, _ = rv.X.(*ssa.Alloc)
+		}
+	}
+	if al == nil {
+		return "", false
+	}
+	if _, isStruct := derefT(al.Type()).Underlying().(*types.Struct); !isStruct {
+		return "", false
+	}
+	var val ssa.Value
+	n := 0
+	for _, r := range *al.Referrers() {
+		switch y := r.(type) {
+		case *ssa.FieldAddr:
+			if y.Field != field {
+				continue
+			}
+			for _, rr := range *y.Referrers() {
+				if st, isS := rr.(*ssa.Store); isS && st.Addr == ssa.Value(y) {
+					val = st.Val
+					n++
+				}
+			}
+		case *ssa.Store:
+			if y.Addr == ssa.Value(al) {
+				return "", false // written as a whole
+			}
+		}
+	}
+	if n != 1 {
+		return "", false
+	}
+	return c.path(val, c.calleeEnv(&cl.Call, g, env), d+2), true
+}
+
+// thinWrapperTarget: f does nothing but hand its own parameters to one unexported module function g and return g's
+// results unchanged (`func (c *T) Do(a, b) (R, error) { return do(a, b) }`). Returns g and the frame that names g's
+// parameters the way f names them.
+func (c *Ctx) thinWrapperTarget(f *ssa.Function) (*ssa.Function, Env) {
+	if f == nil || len(f.Blocks) != 1 {
+		return nil, nil
+	}
+	var call *ssa.Call
+	for _, in := range f.Blocks[0].Instrs {
+		switch x := in.(type) {
+		case *ssa.Call:
+			if call != nil {
+				return nil, nil
+			}
+			call = x
+		case *ssa.Extract, *ssa.Return, *ssa.DebugRef:
+		default:
+			return nil, nil
+		}
+	}
+	if call == nil {
+		return nil, nil
+	}
+	g := call.Call.StaticCallee()
+	if g == nil || !inModule(g) || g.Blocks == nil || g.Object() == nil || g.Object().Exported() {
+		return nil, nil
+	}
+	ret, ok := f.Blocks[0].Instrs[len(f.Blocks[0].Instrs)-1].(*ssa.Return)
+	if !ok {
+		return nil, nil
+	}
+	for i, r := range ret.Results {
+		if len(ret.Results) == 1 {
+			if r != ssa.Value(call) {
+				return nil, nil
+			}
+			continue
+		}
+		ex, isEx := r.(*ssa.Extract)
+		if !isEx || ex.Tuple != ssa.Value(call) || ex.Index != i {
+			return nil, nil
+		}
+	}
+	env := Env{}
+	for i, a := range call.Call.Args {
+		p, isP := a.(*ssa.Parameter)
+		if !isP || i >= len(g.Params) {
+			return nil, nil
+		}
+		env[g.Params[i]] = c.Path(p, nil)
+	}
+	return g, env
+}
+
+var countCallRe = regexp.MustCompile(`^strings\.Count\((.*),("[^"]+")\)$`)
+
+// countAsParts: one of the two rendered operands is strings.Count(s, "sep") (non-empty constant separator) and the other
+// an integer constant k: the pair is rewritten to (len(strings.Split(s,"sep")), k+1), operands kept in their order.
+func countAsParts(l, r string) (string, string, bool) {
+	conv := func(cnt, k string) (string, string, bool) {
+		m := countCallRe.FindStringSubmatch(cnt)
+		if m == nil {
+			return "", "", false
+		}
+		n, err := strconv.Atoi(k)
+		if err != nil {
+			return "", "", false
+		}
+		return "len(strings.Split(" + m[1] + "," + m[2] + "))", strconv.Itoa(n + 1), true
+	}
+	if a, b, ok := conv(l, r); ok {
+		return a, b, true
+	}
+	if a, b, ok := conv(r, l); ok {
+		return b, a, true
+	}
+	return "", "", false
+}
+
+// globalAlias: g is an unexported package-level variable of the module that is initialised with the value of another
+// package-level variable (`var encoding = base64.RawURLEncoding`) and is never assigned or address-taken afterwards:
+// reading it is reading that variable.
+func (c *Ctx) globalAlias(g *ssa.Global) *ssa.Global {
+	if a, done := c.aliasMemo[g]; done {
+		return a
+	}
+	if c.aliasMemo == nil {
+		c.aliasMemo = map[*ssa.Global]*ssa.Global{}
+	}
+	c.aliasMemo[g] = nil
+	if g.Pkg == nil || !strings.HasPrefix(g.Pkg.Pkg.Path(), modPkg) || g.Object() == nil || g.Object().Exported() {
+		return nil
+	}
+	var src *ssa.Global
+	stores := 0
+	okUse := true
+	for _, f := range c.Funcs {
+		if f.Pkg != g.Pkg {
+			continue
+		}
+		forEachInstr(f, func(in ssa.Instruction) {
+			var ops []*ssa.Value
+			for _, op := range in.Operands(ops) {
+				if *op != ssa.Value(g) {
+					continue
+				}
+				switch y := in.(type) {
+				case *ssa.UnOp:
+					if y.Op != token.MUL {
+						okUse = false
+					}
+				case *ssa.Store:
+					if y.Addr != ssa.Value(g) {
+						okUse = false
+						continue
+					}
+					stores++
+					if f.Name() != "init" {
+						okUse = false
+					}
+					if ld, isLd := y.Val.(*ssa.UnOp); isLd && ld.Op == token.MUL {
+						src, _ = ld.X.(*ssa.Global)
+					}
+				case *ssa.DebugRef:
+				default:
+					okUse = false
+				}
+			}
+		})
+	}
+	if okUse && stores == 1 && src != nil {
+		c.aliasMemo[g] = src
+	}
+	return c.aliasMemo[g]
 }
